@@ -46,6 +46,12 @@ KEYS = ["j", "k", "l", "h", "w", "b", "$", "0", "G", "1G", "5G", "H", "M", "L", 
         ":3d\n", ":$d\n", ":1,3d\n", ":s/o/0/g\n", ":g/foo/d\n", ":2\n", ":$\n", ":1\n", ":se hll\n", ":se nohl\n", ":%p\n", ":ec hi\n", ":u\n",
         "/foo\n", "?bar\n", "n", "N", "\x07", "ma", "'a", "``",
         # scrolling that pushes the cursor off its line (cursor on the first/last row, at a column beyond tabs or wide characters)
+        # yanks that move the cursor (to the start of the region) without changing anything
+        "yb", "y0", "yk", "y2k", "$yb", "Lyk", "yH", "y{", "$y^", "12|yk",
+        # one insert that makes several lines: an earlier line wider than the window (typed while the row was scrolled sideways), and
+        # lines that arrive all at once from a register (^P, ^R x)
+        "A\x05 " + "abcdefghij" * 5 + "\ntail\x1b", "o\x05" + "0123456789" * 13 + "\nz\x1b", "I\x05" + "wide " * 9 + "\n\nq\x1b",
+        "yyo\x05\x10x\x1b", "\"ayjo\x05\x12aX\x1b", "2yyA\x05\x10\x1b", "ywi\x05\x10\x10\x1b",
         # operators whose region starts above the first row / ends below the last row of the window
         "H>k", "Hjg~2k", "Hdk", "Hd2k", "H2>k", "Hyk", "H!kcat\n", "Hc2k\x05x\x1b", "\x06>k", "\x06jg~2k", "L>j", "Ldj", "Lg~2j", "Lcj\x05y\x1b", "L!jcat\n", "\x02L>j", "HkJ", "L3J",
         "L\x19", "L8|\x19", "L14|2\x19", "H\x05", "H9|\x05", "H15|3\x05", "L$\x19", "H$\x05", "12|", "20|"]
